@@ -320,8 +320,25 @@ epoll_apply_one_change(struct event_base *base,
 		return 0;
 	}
 
-	if ((ch->read_change|ch->write_change|ch->close_change) & EV_CHANGE_ET)
-		events |= EPOLLET;
+	{
+		/* Edge-triggering belongs to the events that stay registered.
+		 * If this change adds anything, the added events decide (ET
+		 * and non-ET events can not be mixed on one fd); a pure
+		 * deletion keeps the mode of the events it leaves behind.
+		 * Looking at deletions too would register a level-triggered
+		 * event as EPOLLET when it is added in the same changelist
+		 * round in which the last edge-triggered event was deleted. */
+		ev_uint8_t all = ch->read_change|ch->write_change|ch->close_change;
+		ev_uint8_t adds = 0;
+		if (ch->read_change & EV_CHANGE_ADD)
+			adds |= ch->read_change;
+		if (ch->write_change & EV_CHANGE_ADD)
+			adds |= ch->write_change;
+		if (ch->close_change & EV_CHANGE_ADD)
+			adds |= ch->close_change;
+		if (((all & EV_CHANGE_ADD) ? adds : all) & EV_CHANGE_ET)
+			events |= EPOLLET;
+	}
 
 	memset(&epev, 0, sizeof(epev));
 #ifdef EVENT__HAVE_WEPOLL
